@@ -7,7 +7,7 @@ from mcdriver import Job
 
 QUICK_WALL = 170       # seconds: scheduling of new programs stops after this
 THOROUGH_WALL = 1500
-DEEPEN_UNTIL = 1200     # thorough tiers: re-exploration with larger preemption budgets goes on until this many seconds
+DEEPEN_UNTIL = 1000     # thorough tiers: re-exploration with larger preemption budgets goes on until this many seconds
 ASSUME_MC = [
     'schedules are sequentially consistent interleavings of atomic operations (no weak-memory values)',
     'environment models (futex, clock, allocator, binary semaphore) are as described in DESIGN.md section 5; the futex model is compared with the real kernel by env-conformance',
